@@ -17,11 +17,31 @@ UNDECIDED_MSGS = ("rlimit", "Resource limit", "timed out", "canceled")
 
 
 def list_units():
-    return sorted(f[:-3] for f in os.listdir(UNITS_DIR) if f.endswith(".rs"))
+    """unit names; a template with a `//! variants: a b` header yields `name@a`, `name@b`"""
+    out = []
+    for f in sorted(os.listdir(UNITS_DIR)):
+        if not f.endswith(".rs"):
+            continue
+        variants = None
+        with open(os.path.join(UNITS_DIR, f)) as fh:
+            for ln in fh:
+                if ln.startswith("//! variants:"):
+                    variants = ln.split(":", 1)[1].split()
+                if not ln.startswith("//!") and not ln.startswith("#!") and ln.strip():
+                    break
+        if variants:
+            out += ["%s@%s" % (f[:-3], v) for v in variants]
+        else:
+            out.append(f[:-3])
+    return out
 
 
 def unit_path(unit):
-    return os.path.join(UNITS_DIR, unit + ".rs")
+    return os.path.join(UNITS_DIR, unit.split("@")[0] + ".rs")
+
+
+def unit_variant(unit):
+    return unit.split("@")[1] if "@" in unit else None
 
 
 def unit_props(unit):
@@ -69,14 +89,14 @@ def run_unit(unit, repo, workdir, twin=False, timeout=900, rlimit=None):
     res = {"unit": unit, "twin": twin, "status": "tool-error", "functions": {}, "errors": [], "detail": "", "report": None, "wall_s": 0.0,
            "cmd": ""}
     try:
-        comp = splice.compose(unit_path(unit), repo, twin=twin)
+        comp = splice.compose(unit_path(unit), repo, twin=twin, variant=unit_variant(unit))
     except splice.SpliceError as e:
         res["status"] = "splice-error"
         res["detail"] = str(e)
         res["wall_s"] = time.time() - t0
         return res
     res["report"] = comp["report"]
-    crate = unit + ("_twin" if twin else "")
+    crate = unit.replace("@", "_v_") + ("_twin" if twin else "")
     gen = os.path.join(workdir, crate + ".rs")
     with open(gen, "w") as f:
         f.write(comp["text"])
